@@ -18,4 +18,19 @@ META = {
  "C18": dict(
   rule="exhaustive: all 65536 codes through TYPE::from/u16::from, CLASS, QTYPE, QCLASS try_from and back; every supported record kind (built and parsed) x every question type; every class x qclass; compared with the model and with the IANA registry extract; distinct = distinct (request, output)",
   assumptions=STD, exhaustive=True, timeout=dict(quick=600, thorough=600)),
+ "C02": dict(
+  rule="packets built through the public constructors: one record of each of the 43 RDATA kinds alone in each section, then random packets (0..8 entries per section, all classes, cache-flush/unicast bits, boundary integers, binary labels, names up to 255 bytes, with/without OPT, every named opcode/rcode); build_bytes_vec compared byte for byte with the model, Packet::parse of the bytes compared with the model, and the intrinsic oracle parse(build(p)) == p on every field; distinct = distinct (request, output); the excluded point TXT-without-strings is run as the last case",
+  assumptions=STD, timeout=dict(quick=1200, thorough=7200)),
+ "C03": dict(
+  rule="packets as C02 generated with heavy suffix sharing (label pool of 8), plus large messages straddling 16 KiB (padding records, then names repeated on both sides of offset 16383) and up to ~60 KB; build_bytes_vec_compressed compared byte for byte with the model; oracle: parse(compressed) == parse(plain) and len(compressed) <= len(plain); distinct = distinct (request, output)",
+  assumptions=STD, timeout=dict(quick=1200, thorough=7200)),
+ "C05": dict(
+  rule="reference-encoded messages (independent encoder, caller-chosen compression anywhere, OPT at any index) with RDLENGTH made larger/smaller than the natural size (+-1, +2, +7, to the end of the message, past it, zero), the same with surplus bytes inserted so that the envelope stays consistent and more records follow, every count +-1, truncations, plus valid library-built packets; Packet::parse compared exactly with the model; oracle: an independent RFC 1035 envelope walker in the harness, each returned question/record compared with its entry (owner, type, class, flush, ttl), and RDATA re-parsed from the message cut at the record's end; non-trivial = distinct (request, output)",
+  assumptions=STD, timeout=dict(quick=1200, thorough=7200)),
+ "C11": dict(
+  rule="parser-accepted inputs among: reference-encoded messages with arbitrary compression, unknown types/classes of content, empty RDATA, OPT anywhere, RDLENGTH/count perturbations, every 37th (quick) or every (thorough) header word; chain parse -> build (plain and compressed) -> parse on the library, each stage compared with the model; oracle: the re-parsed packet equals the first; non-trivial = accepted inputs",
+  assumptions=STD, timeout=dict(quick=1200, thorough=7200)),
+ "C17": dict(
+  rule="bounded-exhaustive: all strings up to length 6 (thorough 7) over {a,A,1,-,_,.,\\,e-acute}, label lengths 0..70 alone and with neighbours, encoded name lengths 245..262 in three shapes, Label::new on boundary labels, all pairs of the 31 names with <=4 labels over {a,b} plus link-local case variants for is_subdomain_of / without / is_link_local; compared with the model and with the property's grammar re-stated in the harness; distinct = distinct (request, output)",
+  assumptions=STD, exhaustive=True, timeout=dict(quick=1200, thorough=7200)),
 }
